@@ -21,6 +21,10 @@ SUMMARY = {
 'c17e':'packed Rabin-Karp "hot pattern" hint shared by clones pre-empts a higher-priority pattern in the same hash bucket after an earlier search matched the lower one',
 'c17f':'parked thread-local roll buffer is cleared only on the EOF path: a dropped iterator / failed or panicking replace leaves stale bytes for the next stream search on that thread',
 'c17g':'prefilter effectiveness statistics shared by all clones switch the prefilter off for good after >= 40 ineffective calls; earliest(true) searches on leftmost searchers with a packed prefilter then return a different match',
+'c07f':'start-state skip table in the stream loop built with `for byte in 0..u8::MAX` (exclusive): patterns beginning with byte 0xFF are skipped while in the start state',
+'c08f':'pre-roll flush holds back the tail only when the last fill left the buffer full: after a short read that is not the end, the start of a spanning match is written as non-match and as many bytes after it are lost',
+'c17h':'process-wide static remembers the length of the last finished stream and shrinks the next roll buffer, lower-bounded by min instead of min+1: with a pattern >= 1 KiB a stream search right after a short one is truncated',
+'c18g':'writer / closure errors of kind BrokenPipe end stream replacement quietly with Ok(())',
 'c18a':'fill returns Ok(true) instead of the error when it had already buffered bytes in the same call: one-shot read errors during the initial fill vanish',
 'c18b':'closure errors of kind Interrupted are retried by calling the closure again: error swallowed, partial output duplicated',
 'c18c':'fill commits its new end only after the loop: an error on a later read of one fill discards bytes accepted earlier; polling on shifts all later offsets',
@@ -36,6 +40,8 @@ for line in sorted(open(os.path.join(ROOT, 'mutants/RESULTS-seeded.txt'))):
     m = re.search(r'\| (C\d\d) exit=(\d) class=(\S+) replay_exit=(\S+)', line)
     if not m: continue
     engine = {'C07': 'streamsim', 'C08': 'streamsim', 'C18': 'streamsim fault enumeration', 'C17': 'threadsim'}[m.group(1)]
+    if name == 'c17h':
+        engine = 'threadsim (after adding long-pattern searchers; first missed: patterns were <= 40 bytes)'
     if name == 'c17d':
         engine = 'mirisim (free-running threads under Miri, high-contention class); threadsim alone misses it'
     rows.append('| %s | %s | %s %s | %s |' % (name, SUMMARY.get(name, ''), m.group(1), engine, m.group(3)))
